@@ -7,6 +7,7 @@ use crate::e2_arp;
 use crate::e2_dhcp;
 use crate::e2_dns;
 use crate::e2_link;
+use crate::e2_route;
 use crate::e2_sock;
 use crate::e2_start;
 use crate::e2_udp;
@@ -18,10 +19,11 @@ static C02: E2<e2_sock::Sock> = E2(e2_sock::Sock);
 static C13: E2<e2_start::Start> = E2(e2_start::Start);
 static C20: E2<e2_dns::Dns> = E2(e2_dns::Dns);
 static C15: E2<e2_dhcp::Dhcp> = E2(e2_dhcp::Dhcp);
+static C16: E2<e2_route::Route> = E2(e2_route::Route);
 static C04: E2<e2_udp::UdpBind> = E2(e2_udp::UdpBind);
 
 pub fn all() -> Vec<&'static dyn Scenario> {
-    vec![&e1::C01, &e1::C03, &e1::C12, &e1::C17, &e3::C11, &C05, &C04, &C06, &C02, &C13, &C20, &C15, &e2_dhcp::C15_GEN]
+    vec![&e1::C01, &e1::C03, &e1::C12, &e1::C17, &e3::C11, &C05, &C04, &C06, &C02, &C13, &C20, &C15, &e2_dhcp::C15_GEN, &C16]
 }
 
 pub fn get(name: &str) -> Option<&'static dyn Scenario> {
